@@ -6,7 +6,7 @@
    exceptional exit satisfies E.  `unchanged h h'` = every cell of every block, the set of live blocks, their
    sizes and all data-member registers are exactly as before (strong guarantee incl. "nothing leaked"). *)
 From Coq Require Import List Arith Lia Bool.
-From C04 Require Import Effects ObjMgr.
+From C04 Require Import Effects ObjMgr ArrayData Ctor KeyValue.
 Import ListNotations.
 
 (* ObjectManager::RelocateExec (both overloads of pvRelocateExec, ObjectManager.h:508-535), for every element
@@ -92,3 +92,136 @@ Theorem creator_copy_is_executor :
       (fun h h' => mem h' l = Live v /\ mem h' a = Live v).
 Proof. exact creator_copy_spec. Qed.
 Print Assumptions creator_copy_is_executor.
+
+(* MapKeyValueTraits::Relocate (pvRelocate, MapUtility.h:318-353), all 9 category pairs = the 4 combinations of
+   (key nothrow relocatable, value nothrow relocatable): on an exception nothing has changed (the copied key is
+   destroyed again); on success the pair is in (dk, dv) and (sk, sv) are raw. *)
+Theorem kv_relocate_strong :
+  forall ck cv sk sv dk dv kv vv s, kv_pre sk sv dk dv kv vv (hp s) ->
+    wp (kv_relocate ck cv sk sv dk dv) s
+       (fun _ s' => kv_moved sk sv dk dv kv vv (hp s) (hp s'))
+       (fun s' => unchanged (hp s) (hp s')).
+Proof. exact kv_relocate_spec. Qed.
+Print Assumptions kv_relocate_strong.
+
+(* Array::Data::Reset (Array.h:316-337) for ANY items creator that is itself all-or-nothing: allocate, run the
+   creator (free the new block and rethrow if it throws), free the old block, install the new one.  `same_res` =
+   every cell of every live block, the set of live blocks, their sizes and the data members are as before. *)
+Theorem array_reset_strong :
+  forall capacity count cr NewOk s,
+    wf (hp s) -> arr_inv (hp s) -> creator_ok cr capacity (hp s) NewOk ->
+    (forall h h', (forall l, fst l = next (hp s) -> mem h' l = mem h l) -> NewOk h -> NewOk h') ->
+    wp (data_reset capacity count cr) s
+       (fun _ s' => regs (hp s') rItems = next (hp s) /\ regs (hp s') rCount = count /\ regs (hp s') rCap = capacity /\
+                    alive (hp s') (next (hp s)) = true /\ bsize (hp s') (next (hp s)) = capacity /\
+                    (regs (hp s) rCap > 0 -> alive (hp s') (regs (hp s) rItems) = false) /\
+                    (forall b, b <> next (hp s) -> b <> regs (hp s) rItems -> alive (hp s') b = alive (hp s) b) /\
+                    (forall l, fst l <> next (hp s) -> fst l <> regs (hp s) rItems -> mem (hp s') l = mem (hp s) l) /\
+                    NewOk (hp s'))
+       (fun s' => same_res (hp s) (hp s')).
+Proof. exact data_reset_spec. Qed.
+Print Assumptions array_reset_strong.
+
+(* Reserve / pvGrow / Shrink(capacity) / SetCount-with-growth relocation part (Array.h:748-773, 998-1010): Reset with
+   the creator "Relocate(GetItems(), newItems, count)", every category, count and new capacity >= count *)
+Theorem array_reserve_strong :
+  forall c capacity s, wf (hp s) -> arr_inv (hp s) -> regs (hp s) rCount <= capacity ->
+    wp (array_grow c capacity) s
+       (fun _ s' => regs (hp s') rItems = next (hp s) /\ regs (hp s') rCount = regs (hp s) rCount /\ regs (hp s') rCap = capacity /\
+                    alive (hp s') (next (hp s)) = true /\
+                    (regs (hp s) rCap > 0 -> alive (hp s') (regs (hp s) rItems) = false) /\
+                    (forall i, i < regs (hp s) rCount -> mem (hp s') (next (hp s), i) = mem (hp s) (regs (hp s) rItems, i)))
+       (fun s' => same_res (hp s) (hp s')).
+Proof. exact array_grow_spec. Qed.
+Print Assumptions array_reserve_strong.
+
+(* Shrink is the same mechanism with capacity = max(count, requested) *)
+Theorem array_shrink_strong :
+  forall c s, wf (hp s) -> arr_inv (hp s) ->
+    wp (array_grow c (regs (hp s) rCount)) s
+       (fun _ s' => regs (hp s') rCap = regs (hp s) rCount /\
+                    (forall i, i < regs (hp s) rCount -> mem (hp s') (next (hp s), i) = mem (hp s) (regs (hp s) rItems, i)))
+       (fun s' => same_res (hp s) (hp s')).
+Proof. exact Ctor.array_shrink_spec. Qed.
+Print Assumptions array_shrink_strong.
+
+(* AddBack with growth through an item creator (pvAddBackGrow(ItemCreator&&), Array.h:1020-1032), copy creator *)
+Theorem array_addback_strong :
+  forall c capacity arg v s,
+    wf (hp s) -> arr_inv (hp s) -> S (regs (hp s) rCount) <= capacity ->
+    valid (hp s) arg = true /\ mem (hp s) arg = Live v /\ fst arg <> regs (hp s) rItems ->
+    wp (array_addback_grow c capacity (creator_copy arg)) s
+       (fun _ s' => regs (hp s') rItems = next (hp s) /\ regs (hp s') rCount = S (regs (hp s) rCount) /\ regs (hp s') rCap = capacity /\
+                    alive (hp s') (next (hp s)) = true /\
+                    (regs (hp s) rCap > 0 -> alive (hp s') (regs (hp s) rItems) = false) /\
+                    (forall i, i < regs (hp s) rCount -> mem (hp s') (next (hp s), i) = mem (hp s) (regs (hp s) rItems, i)) /\
+                    mem (hp s') (next (hp s), regs (hp s) rCount) = Live v)
+       (fun s' => same_res (hp s) (hp s')).
+Proof. exact array_addback_spec. Qed.
+Print Assumptions array_addback_strong.
+
+(* pvReset of an array with internal capacity, as it is NOW (after f340ccf): for every creator that is all-or-nothing
+   and every junk value the union may be left with, mCapacity and everything else is restored on an exception *)
+Theorem array_reset_intcap_strong :
+  forall ib count junk cr s,
+    intcap_creator_ok cr ib (hp s) -> alive (hp s) (regs (hp s) rItems) = true ->
+    wp (pv_reset_intcap ib count junk cr) s
+       (fun _ s' => regs (hp s') rItems = ib /\ regs (hp s') rCount = count /\ alive (hp s') (regs (hp s) rItems) = false)
+       (fun s' => unchanged (hp s) (hp s')).
+Proof. exact pv_reset_intcap_spec. Qed.
+Print Assumptions array_reset_intcap_strong.
+
+(* ... and the shape BEFORE the fix is refuted by a concrete run: the exception leaves mCapacity = junk *)
+Theorem array_reset_intcap_refuted :
+  exists s', pv_reset_intcap_prefix 1 1 77 demo_creator demo_st = (Exn, s') /\
+             regs (hp demo_st) rCap = 8 /\ regs (hp s') rCap = 77.
+Proof. exact array_reset_intcap_prefix_clobbers. Qed.
+Print Assumptions array_reset_intcap_refuted.
+
+(* Array copy construction (Array.h:561-571): a failing item copy (or allocation) leaves nothing allocated and
+   nothing constructed; every count, every schedule *)
+Theorem array_copy_ctor_strong :
+  forall src n s, wf (hp s) ->
+    (forall j, j < n -> valid (hp s) (src j) = true /\ exists v, mem (hp s) (src j) = Live v) ->
+    wp (array_copy_ctor src n) s
+       (fun nb s' => nb = next (hp s) /\ alive (hp s') nb = true /\
+                     (forall j, j < n -> mem (hp s') (nb, j) = mem (hp s) (src j)) /\
+                     (forall l, fst l <> nb -> mem (hp s') l = mem (hp s) l) /\
+                     (forall b, b <> nb -> alive (hp s') b = alive (hp s) b))
+       (fun s' => same_res (hp s) (hp s')).
+Proof. exact array_copy_ctor_spec. Qed.
+Print Assumptions array_copy_ctor_strong.
+
+Theorem ctor_failure_leaves_nothing :
+  forall src n s s', wf (hp s) ->
+    (forall j, j < n -> valid (hp s) (src j) = true /\ exists v, mem (hp s) (src j) = Live v) ->
+    array_copy_ctor src n s = (Exn, s') ->
+    (forall b, alive (hp s') b = alive (hp s) b) /\ (forall l, alive (hp s) (fst l) = true -> mem (hp s') l = mem (hp s) l).
+Proof. exact Ctor.ctor_failure_nothing. Qed.
+Print Assumptions ctor_failure_leaves_nothing.
+
+(* delegating HashSet/TreeSet constructors: the pre-fix shape (catch: pvDestroy(); throw; then the destructor) destroys
+   twice = Stuck; the shape after 806b9fe (pointer reset to null in the catch) does not, on the same run *)
+Theorem ctor_double_destroy_refuted :
+  exists s', set_copy_ctor false (fun j => (0, j)) 3 (ctor_demo [false; false; true]) = (Stuck, s').
+Proof. exact ctor_double_destroy_prefix_stuck. Qed.
+Print Assumptions ctor_double_destroy_refuted.
+
+Theorem ctor_fixed_no_double_destroy :
+  exists s', set_copy_ctor true (fun j => (0, j)) 3 (ctor_demo [false; false; true]) = (Exn, s') /\
+             alive (hp s') 1 = false /\ mem (hp s') (1, 0) = Raw /\ mem (hp s') (1, 1) = Raw /\ mem (hp s') (0, 1) = Live 11.
+Proof. exact ctor_double_destroy_fixed_ok. Qed.
+Print Assumptions ctor_fixed_no_double_destroy.
+
+(* BucketLimP4::pvAdd under the BucketMemory guard (details/HashBucketLimP4.h:483-495, BucketUtility.h:25-64) *)
+Theorem bucket_add_guard :
+  forall c arg v s, wf (hp s) -> arr_inv (hp s) ->
+    valid (hp s) arg = true /\ mem (hp s) arg = Live v /\ fst arg <> regs (hp s) rItems ->
+    wp (bucket_add c (creator_copy arg)) s
+       (fun _ s' => regs (hp s') rItems = next (hp s) /\ regs (hp s') rCount = S (regs (hp s) rCount) /\
+                    (regs (hp s) rCap > 0 -> alive (hp s') (regs (hp s) rItems) = false) /\
+                    (forall i, i < regs (hp s) rCount -> mem (hp s') (next (hp s), i) = mem (hp s) (regs (hp s) rItems, i)) /\
+                    mem (hp s') (next (hp s), regs (hp s) rCount) = Live v)
+       (fun s' => same_res (hp s) (hp s')).
+Proof. exact bucket_add_spec. Qed.
+Print Assumptions bucket_add_guard.
